@@ -154,7 +154,7 @@ def facts_dir(repo, config='all', quiet=False):
     return d
 
 
-def prune_cache(keep=12):
+def prune_cache(keep=80):
     base = os.path.join(CACHE, 'facts')
     try:
         ents = [(os.path.getmtime(os.path.join(base, e)), e) for e in os.listdir(base) if not e.endswith('.tmp')]
